@@ -79,12 +79,19 @@ def pad_zeros(parts: list[int], to_length: int) -> list[int]:
     return parts + [0] * (to_length - len(parts))
 
 
-@functools.lru_cache(maxsize=None)
 def cnf(marker: BaseMarker) -> BaseMarker:
+    """Transforms the marker into CNF (conjunctive normal form)."""
+    # Markers that are written differently (operand order of an expression,
+    # order of the values of a group) may compare equal, while the result is
+    # built from the marker's own parts: key the cache by the text as well.
+    return _cnf(marker, str(marker))
+
+
+@functools.lru_cache(maxsize=None)
+def _cnf(marker: BaseMarker, _text: str) -> BaseMarker:
     from dep_logic.markers.multi import MultiMarker
     from dep_logic.markers.union import MarkerUnion
 
-    """Transforms the marker into CNF (conjunctive normal form)."""
     if isinstance(marker, MarkerUnion):
         cnf_markers = [cnf(m) for m in marker.markers]
         sub_marker_lists = [
@@ -100,9 +107,13 @@ def cnf(marker: BaseMarker) -> BaseMarker:
     return marker
 
 
-@functools.lru_cache(maxsize=None)
 def dnf(marker: BaseMarker) -> BaseMarker:
     """Transforms the marker into DNF (disjunctive normal form)."""
+    return _dnf(marker, str(marker))
+
+
+@functools.lru_cache(maxsize=None)
+def _dnf(marker: BaseMarker, _text: str) -> BaseMarker:
     from dep_logic.markers.multi import MultiMarker
     from dep_logic.markers.union import MarkerUnion
 
